@@ -125,7 +125,12 @@ func concOpKind(kind int, r *Rng, shared []byte) string {
 			if err := m.Decode(shared); err != nil {
 				return "shared-decode:err"
 			}
-			return "shared-decode:" + sxMsg(m).String()
+			// ... and work on the goroutine's OWN decoded message: encoding it must not touch the shared input either
+			out := "shared-decode:" + sxMsg(m).String()
+			if b, err := m.Encode(); err == nil {
+				out += ":" + hx(b)
+			}
+			return out
 		case 3, 4: // protect + unprotect with an own SA (real random source)
 			k := genSkCase(r, r.Intn(9))
 			sa, err := saFromKeys(k.s, k.ks.d, k.ks.ai, k.ks.ar, k.ks.ei, k.ks.er, k.ks.pi, k.ks.pr)
